@@ -4,12 +4,12 @@ PROPS["C02"] = dict(
     rule="complete enumeration of the 65536 first words (split over 16 shards): rows of the tree's decode table matching "
          "each opcode (<=1), handler identity and expansion flag of recording visitor vs interpreter table vs disassembler vs "
          "parser, observed program fetches of Run(1)+Run(1) from two independent states at start addresses "
-         "{0x12345,0x10000,0x1ABCD,0x1FFFC}; every class of opcodes that differ only in unused bits (by the tree's table and by "
+         "{0x12345,0x10000,0x1ABCD,0x1FFFC}; position twin (same state, start address in program page 0 and in page 1: pc afterwards must be position-relative (sequential or relative branch) or absolute); every class of opcodes that differ only in unused bits (by the tree's table and by "
          "the frozen reference's table) must print identically for 6 second words and execute identically from 4 (quick) / 32 "
          "(thorough) states; generator stream records checked for expand/undefined agreement. distinct_nontrivial = handler "
          "names whose fetches were observed + unused-bit classes (>1 member) compared",
-    floors={Q: {"fetch_observed": 60000, "tree_unused_bit_classes": 20, "generator_records": 80000},
-            T: {"fetch_observed": 60000, "tree_unused_bit_classes": 20, "generator_records": 1000000}},
+    floors={Q: {"fetch_observed": 60000, "position_twins_observed": 50000, "tree_unused_bit_classes": 20, "generator_records": 80000},
+            T: {"fetch_observed": 60000, "position_twins_observed": 50000, "tree_unused_bit_classes": 20, "generator_records": 1000000}},
     exhaustive=True,
     exhaustive_axis="all 65536 first words (decode/length/form clauses); states, second words and start addresses sampled",
     ready=True,
